@@ -187,6 +187,9 @@ func H_C03_lock_interleave() {
 		p := p
 		p.c.Yield = func(op, path string) { w.env(p) }
 	}
+	// connection faults of p1: a request lost before it reached the server, or applied with the
+	// reply lost; the real retry wrappers then send it again (another scheduling point)
+	w.p[0].c.FaultBudget = verifnd.Param("zkfaults", 0)
 	srv.OnDelete = func(c *verifZKClient, path string) {
 		if path != verifLockPath {
 			return
@@ -219,3 +222,6 @@ func H_C03_lock_interleave() {
 	}
 	verifnd.Reach("C03.done")
 }
+
+// H_C03_lock_interleave_faults: the same with one connection fault on p1 (lost request / lost reply).
+func H_C03_lock_interleave_faults() { H_C03_lock_interleave() }
